@@ -306,7 +306,15 @@ def check_matching(b, M):
 def call_mcm(b):
     from socialchoicekit.flow import maximum_cardinality_matching_bipartite
     G = bip_graph(b)
-    M = maximum_cardinality_matching_bipartite(G, list(b["X"]), list(b["Y"]))
+    X, Y = list(b["X"]), list(b["Y"])
+    import hashlib
+    if int(hashlib.sha256(repr(sorted(G.items())).encode()).hexdigest()[:2], 16) % 3 == 0:
+        # a third of the graphs: the very same argument objects (dict, lists) are handed over twice; the second answer counts
+        try:
+            maximum_cardinality_matching_bipartite(G, X, Y)
+        except Exception:  # noqa
+            pass
+    M = maximum_cardinality_matching_bipartite(G, X, Y)
     return [[int(x), int(y)] for x, y in M]
 
 
